@@ -172,8 +172,23 @@ func (s *streamHTTP) readMsg(c Codec, b []byte) (int, []byte, error) {
 		}
 		b = append(b, s.rbuf...)
 		b, n, err := codec.ReadNext(b, s.r, s.opts.maxReceiveMessageSize)
+		if err == io.EOF && n == 0 && len(b) > 0 {
+			// The last bytes arrived together with EOF, decode what is buffered.
+			b, n, err = codec.ReadNext(b, s.r, s.opts.maxReceiveMessageSize)
+			if err == io.EOF && n == 0 {
+				err = io.ErrUnexpectedEOF // stream ends inside a message
+			}
+		}
 		if err == io.EOF {
-			s.rEOF, err = true, nil
+			if n == 0 && count > 0 {
+				// Clean end of stream, there is no message to deliver.
+				s.rEOF = true
+				return count, nil, io.EOF
+			}
+			if n == 0 {
+				s.rEOF = true // empty body: the first message carries only the params
+			}
+			err = nil
 		}
 		s.rbuf = append(s.rbuf[:0], b[n:]...)
 		return count, b[:n], err
